@@ -421,27 +421,43 @@ func keyExchange(klen int, ida, idb []byte, pri *PrivateKey, pub *PublicKey, rpr
 	zero := new(big.Int)
 	if vx.Cmp(zero) == 0 || vy.Cmp(zero) == 0 {
 		err = errors.New("V is infinite")
+		return
 	}
 	pzb := pub
 	if !thisISA {
 		pzb = &pri.PublicKey
 	}
 	zb, err := ZA(pzb, idb)
-	k, ok := kdf(klen, vx.Bytes(), vy.Bytes(), za, zb)
+	if err != nil {
+		return
+	}
+	// every coordinate enters the hashes as a 32-byte string
+	vxBuf, vyBuf := padTo32(vx), padTo32(vy)
+	k, ok := kdf(klen, vxBuf, vyBuf, za, zb)
 	if !ok {
 		err = errors.New("kdf: zero key")
 		return
 	}
-	h1 := BytesCombine(vx.Bytes(), za, zb, rpub.X.Bytes(), rpub.Y.Bytes(), rpri.X.Bytes(), rpri.Y.Bytes())
+	// (x1, y1) is the initiator's ephemeral point RA, (x2, y2) the responder's RB
+	h1 := BytesCombine(vxBuf, za, zb, padTo32(rpri.X), padTo32(rpri.Y), padTo32(rpub.X), padTo32(rpub.Y))
 	if !thisISA {
-		h1 = BytesCombine(vx.Bytes(), za, zb, rpri.X.Bytes(), rpri.Y.Bytes(), rpub.X.Bytes(), rpub.Y.Bytes())
+		h1 = BytesCombine(vxBuf, za, zb, padTo32(rpub.X), padTo32(rpub.Y), padTo32(rpri.X), padTo32(rpri.Y))
 	}
 	hash := sm3.Sm3Sum(h1)
-	h2 := BytesCombine([]byte{0x02}, vy.Bytes(), hash)
+	h2 := BytesCombine([]byte{0x02}, vyBuf, hash)
 	S1 := sm3.Sm3Sum(h2)
-	h3 := BytesCombine([]byte{0x03}, vy.Bytes(), hash)
+	h3 := BytesCombine([]byte{0x03}, vyBuf, hash)
 	S2 := sm3.Sm3Sum(h3)
 	return k, S1, S2, nil
+}
+
+// padTo32 returns the big-endian bytes of v left-padded with zeros to 32 bytes.
+func padTo32(v *big.Int) []byte {
+	buf := v.Bytes()
+	if n := len(buf); n < 32 {
+		buf = append(zeroByteSlice()[:32-n], buf...)
+	}
+	return buf
 }
 
 func msgHash(za, msg []byte) (*big.Int, error) {
